@@ -8,7 +8,7 @@ rnd = os.environ.get("SEED_ROUND", "")
 a = json.load(open(f"/tmp/seed{rnd}/{id_}/_seed/meta.json"))
 outdir = f"/verif/seeded/{id_}" + (f"-{rnd}" if rnd else "")
 m = {
-    "property": id_,
+    "property": id_[:3],
     "breaks": a.get("summary", ""),
     "needs": a.get("needs", ""),
     "files": a.get("files", []),
